@@ -113,6 +113,9 @@ const (
 	implErr
 	implPanic
 	implBad
+	// implUnk: the implementation returns a typed unknown of the conforming result's type (a
+	// function that cannot compute its result yet although its arguments are known)
+	implUnk
 )
 
 type fSpec struct {
@@ -245,6 +248,8 @@ func buildFunc(fs fSpec, log *[]spyEvent) function.Function {
 			return cty.NilVal, errImplCB
 		case implPanic:
 			panic("impl callback panics")
+		case implUnk:
+			return cty.UnknownVal(c10ImplValue(fs.tcb, false).Type()), nil
 		}
 		return c10ImplValue(fs.tcb, true), nil
 	}
@@ -631,6 +636,30 @@ func c10CheckCall(u *U, fs fSpec, f function.Function, logp *[]spyEvent, args []
 				viol("nonconforming-returned", fmt.Sprintf("implementation returned %s for return type %#v and the call returned it: %s", goStr(c10ImplValue(fs.tcb, true)), c10RetType(fs.tcb), goStr(res)))
 			}
 		}
+	case implUnk:
+		state(fmt.Sprintf("S5-result-unknown|dyn=%v refine=%v marks=%v", retDyn, fs.refine, len(expectMarks) > 0) + fmt.Sprint(fs.tcb))
+		if err != nil {
+			viol("result-error", fmt.Sprintf("the implementation returned a conforming unknown value but the call returned error %v", err))
+			return
+		}
+		ru, _ := res.UnmarkDeep()
+		if ru.IsKnown() || !ru.Type().Equals(c10ImplValue(fs.tcb, false).Type()) {
+			viol("result-value", fmt.Sprintf("implementation returned an unknown %#v, the call returned %s", c10ImplValue(fs.tcb, false).Type(), goStr(res)))
+		}
+		got := marksDeep(res)
+		for m := range expectMarks {
+			if !got[m] {
+				viol("result-mark-lost", fmt.Sprintf("result %s lacks mark %v of an argument the function does not handle itself", goStr(res), m))
+			}
+		}
+		for m := range got {
+			if !allMarks[m] {
+				viol("mark-invented", fmt.Sprintf("result carries mark %v that no argument carried", m))
+			}
+		}
+		// (the result's type is the implementation's, which fills the placeholders of the checked
+		// return type; it was compared above)
+		checkRefine()
 	default:
 		state(fmt.Sprintf("S5-result|dyn=%v refine=%v marks=%v", retDyn, fs.refine, len(expectMarks) > 0) + fmt.Sprint(fs.tcb))
 		if err != nil {
@@ -842,7 +871,7 @@ func runC10(c *Ctx) {
 		p := p
 		c.Unit(func(u *U) {
 			for tcb := 0; tcb < cbKinds; tcb++ {
-				for icb := 0; icb < 4; icb++ {
+				for icb := 0; icb < 5; icb++ {
 					for _, rf := range []bool{false, true} {
 						fs := fSpec{params: []pSpec{p}, tcb: tcb, icb: icb, refine: rf}
 						argLists(fs, 3, nk, func(args []cty.Value, kinds []int) { u.DistinctN(1); c10Check(u, fs, args, kinds) })
